@@ -1,4 +1,5 @@
 import CTV.Gen.Handlers
+import CTV.Model.GetEntries
 /-!
 # C07 — get-entries serves the stored bytes for exactly the range it claims
 
@@ -118,5 +119,75 @@ theorem entryAndProof_passthrough (i n i' n' : Int)
   simp at h; omega
 
 example : Gen.parseGetEntryAndProofParams 3 7 = some (3, 7) := by decide
+
+/-! ## the handler part (hand model `CTV.Model.GetEntries`, tied by the correspondence run) -/
+open CTV CTV.Model
+
+theorem indicesOk_spec : ∀ (ls : List BLeaf) (s : Int), indicesOk s ls = true → ∀ i (h : i < ls.length), ls[i].idx = s + i
+  | [], _, _, i, h => by simp at h
+  | l :: ls, s, hok, i, h => by
+    simp only [indicesOk, Bool.and_eq_true, decide_eq_true_eq] at hok
+    cases i with
+    | zero => simp [hok.1]
+    | succ i =>
+      have := indicesOk_spec ls (s + 1) hok.2 i (by simpa using h)
+      simp only [List.getElem_cons_succ, this]; omega
+
+/-- **served_entries.** A 200 answer carries exactly the backend's `(LeafValue, ExtraData)` pairs, unmodified and in order;
+their indices are consecutive from `start`, and there are at most `count` of them. Anything else is not a 200. -/
+theorem served_entries (start count : Int) (treeSize : Nat) (leaves : List BLeaf) (es : List (Bytes × Bytes))
+    (h : getEntriesRespond start count treeSize leaves = (200, es)) :
+    es = leaves.map (fun l => (l.value, l.extra)) ∧ (leaves.length : Int) ≤ count ∧
+    (∀ i (hi : i < leaves.length), leaves[i].idx = start + i) ∧ U64.wrap start < treeSize := by
+  unfold getEntriesRespond at h
+  split at h
+  · simp at h
+  split at h
+  · simp at h
+  split at h
+  · simp at h
+  rename_i h1 h2 h3
+  simp only [Prod.mk.injEq, true_and] at h
+  have h3' : indicesOk start leaves = true := by
+    cases hh : indicesOk start leaves
+    · simp [hh] at h3
+    · rfl
+  exact ⟨h.symm, by omega, indicesOk_spec leaves start h3', by omega⟩
+
+/-- every request that does not satisfy `0 ≤ start ≤ end` (including unparsable parameters) is refused before any backend
+call: the handler answers 400 (see `C08.pre_params` for the HTTP surface). -/
+theorem bad_params_no_rpc (sS eS : String) (m : Int) (al : Bool) :
+    (getEntriesRequest sS eS m al).isSome ↔ ∃ s e, parseInt64 sS = some s ∧ parseInt64 eS = some e ∧ 0 ≤ s ∧ s ≤ e := by
+  unfold getEntriesRequest
+  cases hs : parseInt64 sS <;> cases he : parseInt64 eS <;> simp
+  rename_i s e
+  have := range_ok_iff s e m al
+  cases hr : Gen.parseGetEntriesRange s e m al with
+  | none => rw [hr] at this; simp at this ⊢; omega
+  | some p => rw [hr] at this; simp at this ⊢; exact this
+
+/-- **entry_and_proof_same_bytes.** get-entry-and-proof answers 200 only with the backend leaf's own `LeafValue` and
+`ExtraData` — the same bytes get-entries serves for that index — and the proof hashes unmodified. -/
+theorem entry_and_proof_same_bytes (ts : Int) (treeSize : Nat) (leaf : Option BLeaf) (proof : Option (List Bytes))
+    (v x : Bytes) (p : List Bytes)
+    (h : getEntryAndProofRespond ts treeSize leaf proof = (200, some (v, x, p))) :
+    ∃ l, leaf = some l ∧ v = l.value ∧ x = l.extra ∧ proof = some p ∧ v ≠ [] := by
+  unfold getEntryAndProofRespond at h
+  split at h
+  · simp at h
+  split at h
+  · rename_i l p' 
+    split at h
+    · simp at h
+    split at h
+    · simp at h
+    rename_i hne _
+    simp only [Prod.mk.injEq, Option.some.injEq, true_and] at h
+    refine ⟨l, rfl, h.1.symm, h.2.1.symm, by rw [h.2.2], ?_⟩
+    rw [← h.1]; intro hnil; simp [hnil] at hne
+  · simp at h
+
+example : getEntriesRespond 5 3 10 [⟨5, [1], [2]⟩, ⟨6, [3], []⟩] = (200, [([1], [2]), ([3], [])]) := by decide
+example : (getEntriesRespond 5 3 10 [⟨5, [1], [2]⟩, ⟨7, [3], []⟩]).1 = 500 := by decide
 
 end C07
